@@ -261,18 +261,25 @@ def run(out, drv, info):
             out.violation(sig, what, dict(extra, kind='scan', seed=out.seed, idx=res['idx'], tier=out.tier, summary=res['summary']))
 
 
+def _in_child(fn, arg):
+    """run a worker in a forked child: an aborted restore leaves replicat's loader threads blocked for ever, which would hang the
+    interpreter of the calling process at exit"""
+    with mp.get_context('fork').Pool(1) as pool:
+        return pool.apply(fn, (arg,))
+
+
 def replay(path, drv):
     d = json.load(open(path))
     rp = d.get('replay', d)
     if rp.get('kind') == 'sym':
-        obs = w_symbolic((rp['seed'], rp['idx'], rp.get('tier', 'quick')))
+        obs = _in_child(w_symbolic, (rp['seed'], rp['idx'], rp.get('tier', 'quick')))
         bad, verdict = H.judge(obs, drv) if drv is not None else ([], {})
         print('stats', obs['stats'], 'problems', obs['problems'][:3], 'disagreements', bad[:5])
         print('verdict', {k: (v[:5] if isinstance(v, list) else v) for k, v in verdict.items()})
         leak = obs['encrypted'] and (verdict.get('nonpublic') or verdict.get('unkeyed') or verdict.get('nonce_reuse'))
         return 1 if (bad or obs['problems'] or leak) else 0
     if rp.get('kind') == 'scan':
-        res = w_scan((rp['seed'], rp['idx'], rp.get('tier', 'quick')))
+        res = _in_child(w_scan, (rp['seed'], rp['idx'], rp.get('tier', 'quick')))
         print('summary', res['summary'])
         for v in res['violations']:
             print('violation', v[0], v[1])
